@@ -201,4 +201,33 @@ def rule_e(ctx: Ctx) -> None:
                 'having precedence over it in the group.')
 
 
-RULES = [rule_a, rule_b, rule_c, rule_d, rule_e]
+def rule_f(ctx: Ctx) -> None:
+    """Element against wildcard: the element declaration the wildcard resolves the name to is compared *leniently* (strict=False:
+    a different type is a type-table warning, the element particle wins) - from both sides, whichever of the two particles
+    check_model meets first."""
+    rule = 'C15.f'
+    n = 0
+    for cq in ('xmlschema.validators.wildcards.Xsd11AnyElement', 'xmlschema.validators.elements.Xsd11Element'):
+        c = ctx.idx.cls(cq)
+        f = c.methods.get('is_consistent')
+        if f is None:
+            raise AnalysisError(f'missing anchor {cq}.is_consistent')
+        ctx.analysed(f.qualname)
+        # the resolved declaration: bound from <wildcard>.match(…, resolve=True)
+        res = {text(s.targets[0]) for s in walk_no_nested(f.node) if isinstance(s, ast.Assign) and isinstance(s.value, ast.Call)
+               and isinstance(s.value.func, ast.Attribute) and s.value.func.attr == 'match' and any(k.arg == 'resolve' for k in s.value.keywords)}
+        for cl in calls(f.node):
+            if isinstance(cl.func, ast.Attribute) and cl.func.attr == 'is_consistent' and cl.args and text(cl.args[0]) in res:
+                n += 1
+                st = next((k.value for k in cl.keywords if k.arg == 'strict'), cl.args[1] if len(cl.args) > 1 else None)
+                ok = isinstance(st, ast.Constant) and st.value is False
+                ctx.ob(rule, f'{c.name}.is_consistent: the declaration a wildcard resolves the name to is compared with strict=False', f.loc(cl), ok,
+                       '' if ok else f'`{text(cl)}`: with the default strict=True an element whose name is also a global element of another type is an EDC error as soon as a '
+                       'lax/strict wildcard follows it - a deterministic XSD 1.1 model is rejected (and the verdict depends on which particle comes first)',
+                       key=f'{c.name}.is_consistent|lenient-through-wildcard')
+    ctx.floor(rule, 'consistency tests through a wildcard', n, 2)
+    ctx.explain('C15.f: sibling agreement of Xsd11Element.is_consistent and Xsd11AnyElement.is_consistent on the strict=False argument of '
+                'the comparison with the wildcard-resolved declaration.')
+
+
+RULES = [rule_a, rule_b, rule_c, rule_d, rule_e, rule_f]
